@@ -845,7 +845,10 @@ def run_case(case, ctx):
                     ctx.judged()
                     if featvar_cause is None:
                         featvar_cause = _featvar_diagnosis(info, O, axes, pinned, eff, ib) or "unexplained"
-                    ctx.violation({"kind": "instance-differs", "what": "shaping-glyphs", "cause": featvar_cause},
+                    cause = featvar_cause
+                    if cause == "unexplained" and _on_degenerate_side(eff, _cur["norm"] or {}, x):
+                        cause = "featvars-side-narrower-than-one-f2dot14-step"
+                    ctx.violation({"kind": "instance-differs", "what": "shaping-glyphs", "cause": cause},
                                   "text gids %s at %s: original shapes to %s, instance to %s" % ([c - corpus.PUA for c in t][:12], x or "(static)", [z[0] for z in a][:16], [z[0] for z in b][:16]),
                                   dict(witness, location=x, original_location=uo, hb_norm_original=nO, hb_norm_instance=nI))
                     continue
@@ -881,6 +884,21 @@ def run_case(case, ctx):
         ctx.note("gen:twin-feature-variation-rules")
     if info["shadowed_pair_subtables"]:
         ctx.note("gen:shadowed-format1-pair-subtable")
+
+
+def _on_degenerate_side(eff, norm, x):
+    """Positive identification of the 'side narrower than one F2Dot14 step' mechanism: a restricted axis whose new
+    default and new maximum (minimum) differ in user space but whose normalised limits - as recorded by the monitor on
+    AxisLimits.normalize - coincide, and the compared location lies on that side of the new default."""
+    for t, (a, b, c) in eff.items():
+        if t not in norm or t not in x:
+            continue
+        na, nb, nc = norm[t][:3]
+        if b < c and nb == nc and x[t] > b:
+            return True
+        if a < b and na == nb and x[t] < b:
+            return True
+    return False
 
 
 def _mutator_route(case, ctx, info, O, pinned, steps, gids, texts, is_cff, order, witness):
